@@ -80,6 +80,85 @@ class FnRecord:
         self.contract = ''
 
 
+def _e3_wrap(toks, header, subst, locator):
+    """Rule E3: turn the body of a macro_rules! arm (tokens with 'ann' blocks) into a function.
+
+    `header` is the `fn name(params) -> ret` text given by a `//@@ WRAP` line of the unit template (the
+    parameter list the forwarding macro supplies).  `$x` becomes `x` and must be a parameter of the header;
+    `$m` with m in `subst` (ident metavariables such as `$method`) becomes the given identifier.  The leading
+    annotation block (requires/ensures) becomes the contract.  An arm body that is exactly one `{ ... }`
+    block is used as the function body itself, anything else is wrapped in `{ }`.
+    Returns (tokens, log).  Unknown shapes raise UnitProblem (exit-2 class)."""
+    if not locator.strip().endswith('@arm'):
+        raise UnitProblem('E3: wrap= on an item that is not a macro arm: ' + locator)
+    htoks = rtok.tokenize(header)
+    if not htoks or htoks[0] != ('id', 'fn') or len(htoks) < 4 or htoks[1][0] != 'id' or htoks[2] != ('p', '('):
+        raise UnitProblem('E3: wrap header must be `fn name(params) [-> ret]`: ' + header)
+    pe = rtok.match_close(htoks, 2)
+    params = set()
+    depth = 0
+    start = True
+    for k, t in htoks[3:pe]:
+        if k == 'p' and t in ('(', '[', '<'):
+            depth += 1
+        elif k == 'p' and t in (')', ']', '>'):
+            depth -= 1
+        elif depth == 0 and k == 'p' and t == ',':
+            start = True
+            continue
+        if start and k == 'id' and t != 'mut':
+            params.add(t)
+            start = False
+    # leading contract blocks
+    i = 0
+    contract = []
+    while i < len(toks) and toks[i][0] == 'ann':
+        if re.match(r'\s*(requires|ensures|decreases)\b', toks[i][1]):
+            contract.append(toks[i])
+            i += 1
+        else:
+            break
+    body = toks[i:]
+    out = []
+    used = []
+    j = 0
+    while j < len(body):
+        k, t = body[j]
+        if k == 'p' and t == '$':
+            if j + 1 < len(body) and body[j + 1][0] == 'id':
+                nm = body[j + 1][1]
+                if nm in subst:
+                    out.append(('id', subst[nm]))
+                    if '$%s -> %s' % (nm, subst[nm]) not in used:
+                        used.append('$%s -> %s' % (nm, subst[nm]))
+                elif nm in params:
+                    out.append(('id', nm))
+                else:
+                    raise UnitProblem('E3: metavariable $%s is neither a parameter of `%s` nor substituted' % (nm, header))
+                j += 2
+                continue
+            raise UnitProblem('E3: unsupported `$` shape in macro arm ' + locator)
+        out.append((k, t))
+        j += 1
+    real_idx = [x for x, (k, _) in enumerate(out) if k != 'ann']
+    single_block = False
+    if real_idx and out[real_idx[0]] == ('p', '{'):
+        real = [out[x] for x in real_idx]
+        if rtok.match_close(real, 0) == len(real) - 1:
+            single_block = True
+    if single_block:
+        # annotation blocks in front of the opening brace (other than the contract) move inside
+        first = real_idx[0]
+        pre = out[:first]
+        res = htoks + contract + [out[first]] + pre + out[first + 1:]
+    else:
+        res = htoks + contract + [('p', '{')] + out + [('p', '}')]
+    log = ['E3 macro arm wrapped as `%s`%s; $x -> x for %s%s' % (
+        header, ' (arm block used as fn body)' if single_block else ' (arm expression wrapped in a block)',
+        ', '.join(sorted(params)), ('; ' + ', '.join(used)) if used else '')]
+    return res, log
+
+
 def process_fn(repo, annot_rel, opts, mode, canary, base_variants):
     a = annot.load(os.path.join(CONTRACTS, 'annot', annot_rel))
     rec = FnRecord()
@@ -103,6 +182,10 @@ def process_fn(repo, annot_rel, opts, mode, canary, base_variants):
         variants |= set(opts['variant'].split(','))
     rec.variant = sorted(variants)
     toks = annot.select_variant(toks, variants)
+    e3log = []
+    if opts.get('wrap'):
+        sub = dict(x.split(':', 1) for x in opts['subst'].split(',')) if opts.get('subst') else {}
+        toks, e3log = _e3_wrap(toks, opts['wrap'], sub, a.locator)
     rec.name = fn_name_of(annot.erase(toks))
     b = _body_brace(toks)
     rec.contract = ' '.join(t.strip() for k, t in toks[:b] if k == 'ann')
@@ -110,7 +193,7 @@ def process_fn(repo, annot_rel, opts, mode, canary, base_variants):
         head = toks[:b]
         sp, marks = annot.splice(head)
         lowered, log = lower.lower(sp, marks, {})
-        rec.rules = log
+        rec.rules = e3log + log
         text = '#[verifier::external_body]\n' + rtok.render(lowered).rstrip() + ' { unimplemented!() }\n'
         return text, rec
     ctoks = _add_canary(toks) if canary else None
@@ -122,7 +205,7 @@ def process_fn(repo, annot_rel, opts, mode, canary, base_variants):
         lowered, log = lower.lower(sp, marks, lopts)
     except lower.Unsupported as e:
         raise UnitProblem('unsupported construct in %s: %s' % (a.locator, e))
-    rec.rules = log
+    rec.rules = e3log + log
     text = rtok.render(lowered)
     if ctoks is not None:
         # vacuity canary: a renamed copy with `ensures false`, next to the unmodified function (callers keep
@@ -151,6 +234,7 @@ def build_unit(repo, unit_rel, variants=(), canary=False, word=64):
     path = os.path.join(CONTRACTS, 'units', unit_rel)
     recs = []
     out = []
+    wraps = {}
     with open(path) as f:
         lines = f.read().split('\n')
     for ln in lines:
@@ -167,8 +251,15 @@ def build_unit(repo, unit_rel, variants=(), canary=False, word=64):
             for k, v in subst.items():
                 inc = inc.replace('@%s@' % k, v)
             out.append(inc)
+        elif cmd == 'WRAP':
+            # //@@ WRAP <key> fn name(params) -> ret      (rule E3 function header, referenced by wrap=<key>)
+            wraps[rest[0]] = m.group(2).split(None, 1)[1]
         elif cmd in ('FN', 'SIG'):
             opts = _parse_opts(rest[1:])
+            if opts.get('wrap'):
+                if opts['wrap'] not in wraps:
+                    raise UnitProblem('wrap=%s: no such //@@ WRAP line' % opts['wrap'])
+                opts['wrap'] = wraps[opts['wrap']]
             text, rec = process_fn(repo, rest[0], opts, cmd, canary and cmd == 'FN', variants)
             recs.append(rec)
             out.append('// ---- %s %s  [%s]' % (cmd, rec.locator, rec.status))
